@@ -39,10 +39,37 @@ func Run(c *common.Ctx) error {
 			{Op: "wtx", Frames: [][2]uint64{{3, 33}}, NewSize: 4, Split: true},
 			{Op: "appckpt", CkptMode: 1},
 			{Op: "wtx", Frames: [][2]uint64{{2, 42}, {2, 43}}, NewSize: 2}},
+		// transactions that spill frames into the log and roll back - whole frames, and a log that ends inside a frame
+		// (the writer is interrupted between a frame's header and its page) - followed by ordinary commits
+		{{Op: "rtx", Writes: map[uint32]uint64{1: 1, 2: 2, 3: 3, 4: 4}, NewSize: 4, ToWAL: true},
+			{Op: "wabort", Aborted: [][2]uint64{{2, 92}}, Split: true},
+			{Op: "wtx", Frames: [][2]uint64{{3, 13}}, NewSize: 4},
+			{Op: "wabort", Aborted: [][2]uint64{{4, 94}, {5, 95}}},
+			{Op: "wtx", Frames: [][2]uint64{{2, 22}, {5, 25}}, NewSize: 5},
+			{Op: "wabort", Aborted: [][2]uint64{{1, 91}}, Split: true, CkptMode: 1},
+			{Op: "wtx", Frames: [][2]uint64{{4, 34}}, NewSize: 5}},
+		// a transaction that spills a page and then shrinks the database below it (auto-vacuum): the page is part of
+		// the log but not of the database the transaction leaves
+		{{Op: "rtx", Writes: map[uint32]uint64{1: 1, 2: 2, 3: 3, 4: 4, 5: 5, 6: 6, 7: 7, 8: 8}, NewSize: 8, ToWAL: true},
+			{Op: "wtx", Frames: [][2]uint64{{8, 18}, {2, 12}, {1, 11}}, NewSize: 6},
+			{Op: "wtx", Frames: [][2]uint64{{9, 29}, {3, 23}}, NewSize: 5},
+			{Op: "wtx", Frames: [][2]uint64{{6, 36}, {7, 37}, {8, 38}}, NewSize: 8},
+			{Op: "appckpt", CkptMode: 2},
+			{Op: "wtx", Frames: [][2]uint64{{2, 42}}, NewSize: 8}},
+		// leaving WAL mode the way SQLite does it: the log is closed (checkpointed, deleted), then page 1 is rewritten with
+		// version 1 under a rollback journal while the header on disk - and LiteFS - still say WAL
+		{{Op: "rtx", Writes: map[uint32]uint64{1: 1, 2: 2, 3: 3}, NewSize: 3, ToWAL: true},
+			{Op: "wtx", Frames: [][2]uint64{{2, 12}, {4, 14}}, NewSize: 4},
+			{Op: "torollbackj"},
+			{Op: "rtx", Writes: map[uint32]uint64{2: 22}, NewSize: 4},
+			{Op: "rtx", Writes: map[uint32]uint64{1: 31, 3: 33}, NewSize: 4, ToWAL: true},
+			{Op: "wtx", Frames: [][2]uint64{{1, 41}}, NewSize: 4},
+			{Op: "torollbackj", JMode: 1},
+			{Op: "rtx", Writes: map[uint32]uint64{4: 54}, NewSize: 4}},
 	}
 	for si, script := range scripts {
 		for _, be := range []bool{false, true} {
-			cfg := hist.Config{PageSize: 512, Regime: 0, AllowWAL: true, BigEndian: be}
+			cfg := hist.Config{PageSize: 512, Regime: 0, AllowWAL: true, BigEndian: be, Clients: true}
 			h, err := hist.New(c, c.Rng.Fork(), cfg)
 			if err != nil {
 				if h != nil {
@@ -54,9 +81,14 @@ func Run(c *common.Ctx) error {
 				h.Exec(st)
 			}
 			h.CheckCrash(c, "C03")
-			h.CheckCapture(c, "C03", map[string]bool{"wtx": true, "lockonly": true, "appckpt": true, "lfsckpt": true, "torollback": true, "rtx": true})
+			h.CheckCapture(c, "C03", map[string]bool{"wtx": true, "lockonly": true, "appckpt": true, "lfsckpt": true, "torollback": true, "torollbackj": true, "rtx": true, "wabort": true})
 			cf.Add(h.CoqCase(), map[string]any{"kind": "history", "page_size": 512, "script": si, "big_endian_wal": be, "steps": h.Steps})
 			h.Close()
+		}
+	}
+	if c.Thorough() { // 1 GiB of (sparse) database file
+		if err := lockPageWAL(c); err != nil {
+			return err
 		}
 	}
 	nHist := c.Pick(18, 160)
@@ -71,7 +103,7 @@ func Run(c *common.Ctx) error {
 		}
 		h.Run(c.Pick(25, 60))
 		h.CheckCrash(c, "C03")
-		h.CheckCapture(c, "C03", map[string]bool{"wtx": true, "lockonly": true, "appckpt": true, "lfsckpt": true, "torollback": true, "rtx": true})
+		h.CheckCapture(c, "C03", map[string]bool{"wtx": true, "lockonly": true, "appckpt": true, "lfsckpt": true, "torollback": true, "torollbackj": true, "rtx": true, "wabort": true})
 		cf.Add(h.CoqCase(), map[string]any{"kind": "history", "page_size": cfg.PageSize, "regime": cfg.Regime, "big_endian_wal": cfg.BigEndian, "steps": h.Steps})
 		for _, ob := range h.Obs {
 			c.Count("op_"+ob.Op, 1)
